@@ -422,7 +422,19 @@ def check_document(ctx, rng, parse_fn, text, flags, cls):
     tree_c = parse_fn(text, **flags)
     infos_c, order_c = build_index(tree_c)
     logc = []
-    ChainedVisitor(*[make_recorder(ASTVisitor, logc, i, {}) for i in range(k)]).visit(tree_c)
+    recorders = [make_recorder(ASTVisitor, logc, i, {}) for i in range(k)]
+    # chains may contain chains: the order of the flattened sequence is what counts
+    members, i = [], 0
+    while i < k:
+        n = rng.randint(1, k - i)
+        if n >= 2 and rng.random() < 0.5:
+            members.append(ChainedVisitor(*recorders[i:i + n]))
+            ctx.count("nested_chains")
+        else:
+            n = 1
+            members.append(recorders[i])
+        i += n
+    ChainedVisitor(*members).visit(tree_c)
     ctx.evaluated()
     ctx.count("chained_visits")
     ctx.mark_nontrivial([text, "chain", k])
@@ -455,6 +467,12 @@ def check_document(ctx, rng, parse_fn, text, flags, cls):
     tree_d = parse_fn(text, **flags)
     infos_d, order_d = build_index(tree_d)
     logd = []
+    if rng.random() < 0.3:
+        # history: the base class (which dispatches to no-ops) has been used in this process before
+        from py_gql.lang.visitor import DispatchingVisitor
+
+        DispatchingVisitor().visit(parse_fn(text, **flags))
+        ctx.count("bare_dispatching_visits")
     make_dispatching(logd).visit(tree_d)
     ctx.evaluated()
     ctx.count("dispatching_visits")
